@@ -783,6 +783,40 @@ def gen_parallel(rng, n_dep, n_other):
     return out
 
 
+def gen_ipc_tiny(rng, n):
+    """tiny budgets for the C 1/r bounding potential: from denormals up to 2^-40 |U| (U = energy at the closest
+    approach), both signs of the charge product, in front of / behind the target, all directions, several box
+    lengths.  Float-level totality: searched, not proved (no Coq case)."""
+    out = []
+    for i in range(n):
+        L = (1.0, 2.0, 3.7, 0.5, 10.0, 7.3)[i % 6]
+        d = i % 3
+        pref = rng.choice([1.5837, 1.0, 2.5, 1.6])
+        c1 = rng.choice([1.0, 0.5, 2.0, 1.3])
+        c2 = rng.choice([1.0, 0.5, 2.0, 0.7]) * (1 if (i // 3) % 2 == 0 else -1)
+        sep = [rng.uniform(-L / 2, L / 2) for _ in range(3)]
+        if (i // 6) % 2 == 0:
+            sep[d] = abs(sep[d])
+        else:
+            sep[d] = -abs(sep[d])
+        if rng.random() < 0.08:
+            sep[d] = rng.choice([0.0, -0.0, 1e-9 * L, -1e-9 * L])
+        x, q = xq(sep, d)
+        U = abs(pref * c1 * c2) / math.sqrt(float(q))
+        u = rng.random()
+        if u < 0.45:
+            dE = U * 2.0 ** -rng.uniform(40, 80)
+        elif u < 0.8:
+            dE = U * 2.0 ** -rng.uniform(80, 1000)
+        else:
+            dE = rng.choice([5e-324, 2.0 ** -1022, 1e-310, 1e-300, 1e-100])
+        dE = max(dE, 5e-324)
+        op = {"k": "ipc_disp", "pref": f2b(pref), "c1": f2b(c1), "c2": f2b(c2), "sep": bits(sep), "dir": d,
+              "speed": f2b(rng.choice(SPEEDS)), "dE": f2b(dE), "L": f2b(L)}
+        out.append({"fam": "ipc", "op": op, "tiny": True})
+    return out
+
+
 ZERO_CHARGES = [(1.0, 0.0), (0.0, 1.0), (0.0, 0.0), (-1.0, 0.0), (0.0, -0.0), (-0.0, -1.3), (-0.0, -0.0), (2.0, -0.0)]
 
 
@@ -1046,6 +1080,22 @@ def classify_failure(c, r):
     the path, or exactly head-on geometry for F3d)."""
     op = c["op"]
     fam = c["fam"]
+    if fam == "ipc":
+        # F3f: NaN of the C 1/r bounding routine for a budget below the rounding error of the energy at the closest
+        # approach (the radicand new_norm^2 - rho^2 rounds to a negative number)
+        x, q = xq(sepv(op), op["dir"])
+        if q == 0 or (isinstance(r, list) and r and r[0] == "EXC"):
+            return None
+        U = abs(fl(op, "pref") * fl(op, "c1") * fl(op, "c2")) / math.sqrt(float(q))
+        v = b2f(r[0])
+        tiny = 0 < fl(op, "dE") <= TINY_BUDGET * U
+        if v != v and tiny:
+            return "F3f"
+        # same mechanism with |x| << rho: x + sqrt(radicand) with a radicand wrong by its rounding error gives a
+        # slightly negative distance (at most about sqrt(rounding error) * rho)
+        if tiny and v < 0 and abs(v) * fl(op, "speed") <= 2.0 ** -24 * (abs(x) + math.sqrt(float(q))):
+            return "F3f"
+        return None
     if fam not in ("ip", "lj", "dep"):
         return None
     x, q = xq(sepv(op), op["dir"])
@@ -1347,6 +1397,14 @@ def probes():
                                                "sep": bits([1.6779244360898145, 0.06593893868989249,
                                                             -0.10859184213832003]),
                                                "dir": 0, "speed": f2b(2.7), "dE": f2b(113132062882.96817)}})
+    P.append({"fam": "ipc", "tag": "F3f", "tiny": True,
+              "op": {"k": "ipc_disp", "pref": f2b(1.6), "c1": f2b(1.0), "c2": f2b(-1.0),
+                     "sep": bits([0.357981097613854, 0.3101918790082182, -0.4549231899146402]), "dir": 0,
+                     "speed": f2b(1.0), "dE": f2b(1e-18), "L": f2b(1.0)}})
+    P.append({"fam": "ipc", "tag": "F3f", "tiny": True,
+              "op": {"k": "ipc_disp", "pref": f2b(2.5), "c1": f2b(1.0), "c2": f2b(-1.0),
+                     "sep": bits([0.0, -1.0276768756736903, -1.7093237021777399]), "dir": 0,
+                     "speed": f2b(1.0), "dE": f2b(1e-300), "L": f2b(7.3)}})
     ip(6.0, 1.0, 1.0, 1.0, [1.5, 0.0, 0.0], 0.5, "F3d")
     ip(1.0, 1.0, 1.0, -1.0, [1.5, 0.0, 0.0], 0.5, "F3d")
     lj([1.5, 0.0, 0.0], 0.5, "F3d")
@@ -1426,7 +1484,7 @@ def run(ctx, cases_override=None):
                  + gen_ipc(rng, int(N * 0.08)) + gen_ipc_laps(rng, ctx.n(2, 12))
                  + gen_ipc_aligned(rng, ctx.n(48, 480)) + gen_zero_charge(rng, ctx.n(72, 720))
                  + gen_parallel(rng, ctx.n(72, 720), ctx.n(36, 360)))
-        tot = gen_totality(rng, ctx.n(3000, 60000))
+        tot = gen_totality(rng, ctx.n(3000, 60000)) + gen_ipc_tiny(rng, ctx.n(600, 12000))
         prb = probes()
     allc = cases + tot + prb
     t0 = time.time()
@@ -1443,6 +1501,8 @@ def run(ctx, cases_override=None):
     nC = len(cases)
     viol = []       # (case, result, message)
     known_hits = {}
+    # a failure in a recorded input class is reported as KNOWN-FINDING only while that entry is open
+    open_ids = {k["id"] for k in C.known_open("C02")}
 
     def outcome(c, r):
         if r and r[0] == "EXC":
@@ -1458,11 +1518,16 @@ def run(ctx, cases_override=None):
             x, q = xq(sepv(c["op"]), c["op"]["dir"])
             scale = abs(x) + math.sqrt(float(q))
             neg = v * fl(c["op"], "speed") < -2.0 ** -36 * scale
+        if not failed and c["fam"] == "ipc" and v < 0:
+            neg = v * fl(c["op"], "speed") < -2.0 ** -36 * fl(c["op"], "L")
         if failed or neg:
             fid = classify_failure(c, r)
+            what = "raised %s: %s" % (r[1], r[2]) if failed and v is None else "returned %r" % v
             if fid is None:
-                viol.append((c, r, "displacement %s for an admissible separation and positive budget" % (
-                    "raised %s: %s" % (r[1], r[2]) if failed and v is None else "returned %r" % v)))
+                viol.append((c, r, "displacement %s for an admissible separation and positive budget" % what))
+            elif fid not in open_ids:
+                viol.append((c, r, "displacement %s for an admissible separation and positive budget (input class of "
+                             "%s, which is not an open entry of known_findings.json)" % (what, fid)))
             else:
                 known_hits.setdefault(fid, []).append((c, r))
         elif c.get("tag"):
@@ -1569,6 +1634,16 @@ def run(ctx, cases_override=None):
                 viol.append((c, r, m))
             continue
         plan.append((i, c, r, v))
+    # tiny-budget stream of the C bounding potential: same exact-lap / bracket oracle (no Coq case)
+    for c, r in zip(tot, res[nC:nC + len(tot)]):
+        if c["fam"] != "ipc":
+            continue
+        v = outcome(c, r)
+        if v is None or v != v:
+            continue
+        m = oracle_ipc(c, v)
+        if m:
+            viol.append((c, r, m))
     # gather energy evaluations for ip / lj / dep
     reqs = []
     for i, c, r, v in plan:
@@ -1645,6 +1720,8 @@ def run(ctx, cases_override=None):
         "ipc_aligned_strata": {"exactly_aligned_oracle_only": sum(1 for c in cases if c.get("stratum") == "aligned"),
                                "one_transverse_component_zero": sum(1 for c in cases if c.get("stratum") == "onezero")},
         "zero_charge_product_cases": len(zc),
+        "ipc_tiny_budget_cases_oracle_only": sum(1 for c in tot if c.get("tiny")),
+        "known_finding_entries_open": sorted(open_ids),
         "exactly_parallel_cases": {f: sum(1 for c in cases if c.get("stratum") == "parallel" and c["fam"] == f)
                                    for f in ("dep", "ip", "lj")},
         "ipc_budget_within_rounding_of_lap_multiple": sum(1 for c in cases if c.get("near_lap_multiple")),
